@@ -91,7 +91,9 @@ def gen(rng, tier):
         streams.append(s)
     insp = {"form": rng.choice(["path", "list", "gen", "iter1", "db"]),
             "look_for": rng.sample(["featuretype", "chrom", "attribute_keys", "feature_count", "strand", "source"], rng.randint(1, 4)),
-            "limit": rng.choice([None, None, 1, 2, n, n + 1, 0])}
+            "limit": rng.choice([None, None, 1, 2, n, n + 1, 0]),
+            # the documented default of look_for, and the same question asked twice in one process
+            "default_look_for": rng.random() < 0.3, "twice": rng.random() < 0.5}
     db_delete_at = rng.choice([None, None, 3, 1005])
     if n >= 1000 and rng.random() < 0.7:
         # long source: make sure the "source modified while it is read" scenario is exercised across any internal batching
@@ -379,6 +381,10 @@ def run(case):
         if not V:
             ins = case["inspect"]
             op = {"op": "inspect", "src": "insp", "kw": {"look_for": ins["look_for"]}}
+            if ins.get("default_look_for"):
+                ins = dict(ins, look_for=["featuretype", "chrom", "attribute_keys", "feature_count"])
+                op["kw"] = {}
+                probes["inspect_with_default_look_for"] = 1
             if ins["limit"] is not None:
                 op["kw"]["limit"] = ins["limit"]
             if ins["form"] == "db":
@@ -395,6 +401,9 @@ def run(case):
                 base = [{"cols": f["cols"], "attrs": f["attrs"]} for f in feats]
             if base is not None:
                 r = call(node, op)
+                if r["ok"] and ins.get("twice"):
+                    r = call(node, op)  # asked again: same answer
+                    probes["inspect_asked_twice"] = 1
                 lim = ins["limit"]
                 cnt = len(base) if not lim else min(len(base), lim)
                 if not r["ok"]:
